@@ -398,6 +398,16 @@ def stepDriver (d : DSt) (op implObs : String) : DSt × String × List String :=
     | none => (d, implObs, [])
     | some mop =>
     let (r, parked) := step s d.parked (fun k => d.knownPeers.contains k) mop
+    -- `hangup=1`: the peer's disconnect was queued right behind the block (the harness says `hungup`); the
+    -- model handles the two events one after the other, without clearing the per-op records in between
+    let hang2 (r : StepOut) (parked : Parked) (k : Nat) : StepOut × Parked :=
+      let (m2, _, parked2) := handle r.st parked (fun k => d.knownPeers.contains k) (Op.disconnect k)
+      let m3 : M := runWorkers 12 (m2.1, r.outs ++ m2.2)
+      (({ st := m3.1, verdict := "hungup", outs := m3.2 } : StepOut), parked2)
+    let (r, parked) : StepOut × Parked :=
+      match mop with
+      | .msg k _ => if implVerdict = "hungup" then hang2 r parked k else (r, parked)
+      | _ => (r, parked)
     let st1 := r.st
     let outs1 := r.outs
     let known := match mop with
